@@ -612,7 +612,7 @@ func (w *World) StepOnce(maxIdle time.Duration) bool {
 	w.S.Settle()
 	if p := w.S.TakePanics(); len(p) > 0 {
 		for _, pi := range p {
-			w.Violate("panic", "panic: "+firstLine(pi.Value)+" @ "+panicSite(pi.Stack), fmt.Sprintf("task %s panicked: %s\n%s", pi.Task, pi.Value, pi.Stack))
+			w.Violate("panic", "panic: "+numbersOut(firstLine(pi.Value))+" @ "+panicSite(pi.Stack), fmt.Sprintf("task %s panicked: %s\n%s", pi.Task, pi.Value, pi.Stack))
 		}
 		return true
 	}
@@ -892,6 +892,26 @@ func (w *World) Teardown() {
 	}
 	w.stop = stop
 	w.S.KillAll()
+}
+
+// numbersOut replaces every run of digits by N, so that one defect has one signature whatever
+// index, length or address its panic message happens to carry.
+func numbersOut(s string) string {
+	var b []byte
+	in := false
+	for i := 0; i < len(s); i++ {
+		c := s[i]
+		if c >= '0' && c <= '9' {
+			if !in {
+				b = append(b, 'N')
+			}
+			in = true
+			continue
+		}
+		in = false
+		b = append(b, c)
+	}
+	return string(b)
 }
 
 func firstLine(s string) string {
